@@ -8,6 +8,8 @@ package main
 //	         e = Emit (plugin writes to its stdout and stderr)      p = Ping
 //	config   proto netrpc|grpc × mux × AutoMTLS × launch cmd|runner
 //	         (runner = ClientConfig.RunnerFunc returning a runner.Runner around a real exec.Cmd)
+//	pre      (optional) close = before Kill the host calls ClientProtocol.Close() itself and waits until
+//	         Client.Exited(): Kill finds a recorded runner whose process has already exited
 //
 // After Kill has returned and the plugin process is gone: both directories are
 // listed (nothing go-plugin created may remain) and, 3 s later, the host's
@@ -48,6 +50,10 @@ type c18Case struct {
 	launch    string // cmd | runner
 	procs     int    // GOMAXPROCS of the plugin process (0 = default): 1 makes scheduling races inside the plugin reproducible
 	ops       []string
+	// pre = what happens between the history and Kill: "" = nothing (the plugin is running when Kill is
+	// called); "close" = the host calls ClientProtocol.Close() itself (the plugin is asked to shut down and
+	// exits gracefully), waits until Client.Exited() reports the exit, and only then calls Kill
+	pre string
 }
 
 func (c *c18Case) line() string {
@@ -55,7 +61,11 @@ func (c *c18Case) line() string {
 	if len(c.ops) > 0 {
 		ops = strings.Join(c.ops, ",")
 	}
-	return fmt.Sprintf("C18 proto=%s mux=%s auto=%s launch=%s procs=%d ops=%s", c.proto, b01(c.mux), b01(c.auto), c.launch, c.procs, ops)
+	s := fmt.Sprintf("C18 proto=%s mux=%s auto=%s launch=%s procs=%d ops=%s", c.proto, b01(c.mux), b01(c.auto), c.launch, c.procs, ops)
+	if c.pre != "" {
+		s += " pre=" + c.pre
+	}
+	return s
 }
 
 // cfgName is the configuration part of a signature, e.g. "grpc+mux+cmd".
@@ -70,6 +80,9 @@ func (c *c18Case) cfgName() string {
 func c18FromLine(m map[string]string) (*c18Case, error) {
 	c := &c18Case{proto: m["proto"], mux: m["mux"] == "1", auto: m["auto"] == "1", launch: m["launch"], ops: splitComma(m["ops"])}
 	fmt.Sscanf(m["procs"], "%d", &c.procs)
+	if c.pre = m["pre"]; c.pre != "" && c.pre != "close" {
+		return nil, errors.New("bad pre")
+	}
 	if c.proto != "netrpc" && c.proto != "grpc" {
 		return nil, errors.New("bad proto")
 	}
@@ -423,6 +436,24 @@ func c18Session(c *c18Case) (impl, pred string, notes []string) {
 				}
 			}
 		}
+		if c.pre == "close" {
+			// the host is done with the plugin before it gets round to Kill: it closes the protocol client
+			// (which asks the plugin to shut down) and sees the plugin exit
+			stage = "pre-close"
+			if err := getCP(); err != nil {
+				return err
+			}
+			if err := cp.Close(); err != nil {
+				return err
+			}
+			stage = "pre-close-exit"
+			for dl := time.Now().Add(10 * time.Second); !client.Exited(); {
+				if time.Now().After(dl) {
+					return errors.New("plugin did not exit within 10 s of ClientProtocol.Close")
+				}
+				time.Sleep(5 * time.Millisecond)
+			}
+		}
 		return nil
 	})
 	switch {
@@ -447,7 +478,9 @@ func c18Session(c *c18Case) (impl, pred string, notes []string) {
 	if pid != 0 && !c18PidGone(pid, 5*time.Second) {
 		return "err stage=process-alive", "FAIL:process-alive-after-kill", notes
 	}
-	if client.VerifKilled() {
+	// (pre=close: the plugin exited by itself, on request, before Kill was called — that is the graceful exit;
+	// that Kill afterwards "kills" the recorded, already reaped process says nothing about it)
+	if c.pre == "" && client.VerifKilled() {
 		// not a graceful exit: outside the property's premise (C04 is about this)
 		return "forced", "ok", append(notes, "plugin had to be killed: not a graceful exit")
 	}
@@ -566,6 +599,23 @@ func c18Generate(r *rng) []*c18Case {
 			add(cf, []string{"d", "c", "e", "p", "c", "d"}, map[bool]int{false: 0, true: 1}[cf.auto])
 		}
 	}
+	// the plugin has ALREADY exited when Kill is called (the host closed the protocol client itself): Kill's own
+	// clean-up duties (socket directory of a RunnerFunc launch, waiting for the client's goroutines) remain
+	for _, cf := range cfgs {
+		if cf.auto || (cf.proto == "netrpc" && cf.mux) {
+			continue
+		}
+		if cf.launch == "runner" {
+			c := cf
+			c.pre = "close"
+			add(c, nil, 0)
+			add(c, []string{"d", "c"}, 0)
+		} else if !cf.mux {
+			c := cf
+			c.pre = "close"
+			add(c, []string{"d", "c", "e"}, 0)
+		}
+	}
 	n := 14
 	if tier() == "thorough" {
 		n = 150
@@ -585,7 +635,11 @@ func c18Generate(r *rng) []*c18Case {
 		q := r.fork(uint64(i))
 		cf := weighted[q.intn(len(weighted))]
 		ops := c18RandomOps(q)
-		add(cf, ops, map[bool]int{false: 0, true: 1}[q.intn(3) == 0])
+		procs := map[bool]int{false: 0, true: 1}[q.intn(3) == 0]
+		if q.intn(4) == 0 { // (drawn after everything else: the other cases of a seed stay what they were)
+			cf.pre = "close"
+		}
+		add(cf, ops, procs)
 	}
 	return cases
 }
@@ -715,7 +769,14 @@ func hostC18(o *out, replay string) {
 		ks = append(ks, fmt.Sprintf("%s=%d", k, v))
 	}
 	sort.Strings(ks)
-	o.note("sessions=%d (one host process each) configs: %s", len(cases), strings.Join(ks, " "))
+	preClose := 0
+	for _, c := range cases {
+		if c.pre == "close" {
+			preClose++
+		}
+	}
+	o.note("sessions=%d (one host process each; %d with the plugin shut down through ClientProtocol.Close and exited before Kill) configs: %s",
+		len(cases), preClose, strings.Join(ks, " "))
 	o.note("ops: dispense+Double=%d callback(both directions)=%d emit=%d ping=%d; sessions whose plugin needed SIGKILL (outside the premise)=%d; wall=%.0fs",
 		opCount["d"], opCount["c"], opCount["e"], opCount["p"], forced, time.Since(t0).Seconds())
 }
